@@ -14,9 +14,17 @@ impl Prop for C10 {
     fn strategy(&self, tier: Tier, _b: &str) -> BoxedStrategy<AnyCase> {
         any_case(tier, (5, 3, 2), &TreeKind::ALL)
     }
-    fn cases(&self, tier: Tier, _build: &str) -> u32 {
-        if tier == Tier::Quick { 24_000 } else { 120_000 }
+    fn cases(&self, tier: Tier, build: &str) -> u32 {
+        match (tier, build) {
+            (Tier::Quick, "asan") => 4_000,
+            (Tier::Thorough, "asan") => 30_000,
+            (Tier::Quick, _) => 24_000,
+            (Tier::Thorough, _) => 120_000,
+        }
     }
+    // `asan`: the unchecked twins under AddressSanitizer (valid arguments must not read outside
+    // an allocation either)
+    fn builds(&self, _tier: Tier) -> Vec<&'static str> { vec!["fast", "checked", "asan"] }
     fn transcript_pairs(&self) -> Vec<(&'static str, &'static str)> {
         vec![("fast", "checked")]
     }
@@ -48,11 +56,14 @@ impl Prop for C11 {
     fn cases(&self, tier: Tier, build: &str) -> u32 {
         match (tier, build) {
             (Tier::Quick, "fast") => 20_000,
+            (Tier::Quick, "asan") => 1_600,
             (Tier::Quick, _) => 8_000,
             (Tier::Thorough, "fast") => 120_000,
+            (Tier::Thorough, "asan") => 8_000,
             (Tier::Thorough, _) => 30_000,
         }
     }
+    fn builds(&self, _tier: Tier) -> Vec<&'static str> { vec!["fast", "checked", "asan"] }
     fn rule(&self) -> &'static str {
         "cases = any serializable structure built from the shared generators (empty and default values included); bincode::serialize must succeed, deserialize must succeed, the result must == the original, serialize again to identical bytes, report the same space usage and produce the same digest over the whole query plan as the original (which is itself compared with the model); non-trivial = non-empty value with more than one level / more than 512 elements; distinct = hash of the whole case"
     }
